@@ -322,3 +322,369 @@ Proof.
   - rewrite tails_app, app_assoc, Hg, G1. exact T.
   - apply Forall_app. split; assumption.
 Qed.
+
+(* ---------------------------------------------------------------- 5. the catalogue *)
+(* ---- names *)
+Lemma name_eqb_eq a : forall b, name_eqb a b = true <-> a = b.
+Proof.
+  unfold name_eqb. induction a as [|x a IH]; destruct b as [|y b]; cbn [list_eqb]; split; intro H;
+    try reflexivity; try discriminate.
+  - apply andb_prop in H. destruct H as [H1 H2]. apply N.eqb_eq in H1. apply IH in H2. subst. reflexivity.
+  - inversion H; subst. rewrite N.eqb_refl. apply IH. reflexivity.
+Qed.
+Lemma name_eqb_refl a : name_eqb a a = true.
+Proof. apply name_eqb_eq. reflexivity. Qed.
+Lemma name_eqb_neq a b : a <> b -> name_eqb a b = false.
+Proof. intro H. destruct (name_eqb a b) eqn:E; [|reflexivity]. apply name_eqb_eq in E. contradiction. Qed.
+Lemma name_eqb_false a b : name_eqb a b = false -> a <> b.
+Proof. intros H E. subst. rewrite name_eqb_refl in H. discriminate. Qed.
+
+(* ---- place_at as a point update of a vector padded with the hole descriptor *)
+Lemma upd_nth {A} (w : list A) : forall p d q dflt, (p < length w)%nat ->
+  nth q (firstn p w ++ d :: skipn (S p) w) dflt = if Nat.eqb q p then d else nth q w dflt.
+Proof.
+  induction w as [|a w IH]; intros p d q dflt H; [cbn in H; lia|].
+  destruct p, q; cbn [firstn skipn app nth Nat.eqb]; try reflexivity.
+  apply IH. cbn in H. lia.
+Qed.
+Lemma upd_length {A} (w : list A) p d : (p < length w)%nat ->
+  length (firstn p w ++ d :: skipn (S p) w) = length w.
+Proof. intro H. rewrite app_length, firstn_length_le by lia. cbn [length]. rewrite skipn_length. lia. Qed.
+
+Definition padded (v : list seg_desc) (p : nat) : list seg_desc :=
+  if Nat.leb (length v) p then v ++ repeat empty_desc (p + 1 - length v) else v.
+Lemma padded_length v p : length (padded v p) = Nat.max (length v) (S p).
+Proof.
+  unfold padded. destruct (Nat.leb_spec (length v) p); [|lia].
+  rewrite app_length, repeat_length. lia.
+Qed.
+Lemma padded_nth v p q : nth q (padded v p) empty_desc = nth q v empty_desc.
+Proof.
+  unfold padded. destruct (Nat.leb_spec (length v) p); [|reflexivity].
+  destruct (Nat.lt_ge_cases q (length v)).
+  - apply app_nth1. assumption.
+  - rewrite app_nth2 by assumption. rewrite (nth_overflow v) by assumption.
+    apply nth_repeat.
+Qed.
+Lemma place_at_padded v p d : place_at v p d = firstn p (padded v p) ++ d :: skipn (S p) (padded v p).
+Proof. reflexivity. Qed.
+
+Lemma place_at_length v p d : length (place_at v p d) = Nat.max (length v) (S p).
+Proof. rewrite place_at_padded, upd_length; rewrite padded_length; lia. Qed.
+Lemma place_at_nth v p d q :
+  nth q (place_at v p d) empty_desc = if Nat.eqb q p then d else nth q v empty_desc.
+Proof. rewrite place_at_padded, upd_nth by (rewrite padded_length; lia). rewrite padded_nth. reflexivity. Qed.
+
+Lemma place_at_comm v p d q e : p <> q -> place_at (place_at v p d) q e = place_at (place_at v q e) p d.
+Proof.
+  intro H. apply (nth_ext _ _ empty_desc empty_desc).
+  - rewrite !place_at_length. lia.
+  - intros n _. rewrite !place_at_nth.
+    destruct (Nat.eqb_spec n q), (Nat.eqb_spec n p); try reflexivity. lia.
+Qed.
+Lemma place_at_end v d : place_at v (length v) d = v ++ [d].
+Proof.
+  apply (nth_ext _ _ empty_desc empty_desc).
+  - rewrite place_at_length, app_length. cbn. lia.
+  - intros n _. rewrite place_at_nth. destruct (Nat.eqb_spec n (length v)).
+    + subst. rewrite app_nth2, Nat.sub_diag by lia. reflexivity.
+    + destruct (Nat.lt_ge_cases n (length v)).
+      * rewrite app_nth1 by assumption. reflexivity.
+      * rewrite !nth_overflow; [reflexivity | rewrite app_length; cbn; lia | lia].
+Qed.
+
+(* the registrations of one contig, applied in the order they arrive *)
+Definition place_list (v : list seg_desc) (L : list (nat * seg_desc)) : list seg_desc :=
+  fold_left (fun v x => place_at v (fst x) (snd x)) L v.
+
+Lemma place_list_perm : forall L L', Permutation L L' -> NoDup (map fst L) ->
+  forall v, place_list v L = place_list v L'.
+Proof.
+  induction 1 as [|x l l' P IH|x y l|l l' l'' P1 IH1 P2 IH2]; intros ND v.
+  - reflexivity.
+  - cbn. apply IH. inversion ND; assumption.
+  - cbn. f_equal. apply place_at_comm. cbn in ND. inversion ND as [|? ? Hn _]; subst. cbn in Hn. intuition.
+  - rewrite IH1 by assumption. apply IH2.
+    apply (Permutation_NoDup (Permutation_map fst P1)). assumption.
+Qed.
+Lemma place_list_sorted : forall L v, map fst L = seq (length v) (length L) -> place_list v L = v ++ map snd L.
+Proof.
+  induction L as [|x L IH]; intros v H; [cbn; rewrite app_nil_r; reflexivity|].
+  change (place_list v (x :: L)) with (place_list (place_at v (fst x) (snd x)) L).
+  cbn [map length seq] in H. inversion H as [[H1 H2]]. rewrite H1, place_at_end.
+  rewrite IH; [cbn [map]; rewrite <- app_assoc; reflexivity|]. rewrite app_length. cbn [length].
+  rewrite H2. f_equal. lia.
+Qed.
+Lemma place_perm_dense L L' : Permutation L L' -> map fst L' = seq 0 (length L') ->
+  place_list [] L = map snd L'.
+Proof.
+  intros P H. rewrite (place_list_perm L L' P).
+  - apply (place_list_sorted L' []). exact H.
+  - apply (Permutation_NoDup (Permutation_map fst (Permutation_sym P))). rewrite H. apply seq_NoDup.
+Qed.
+
+(* ---- the catalogue as a function of its shape (sample names with their contig names) *)
+Definition shape := list (name * list name).
+Definition build (sh : shape) (V : name -> name -> list seg_desc) : collection :=
+  map (fun s => (fst s, map (fun c => (c, V (fst s) c)) (snd s))) sh.
+Definition shape_ok (sh : shape) : Prop := NoDup (map fst sh) /\ Forall (fun s => NoDup (snd s)) sh.
+
+Lemma build_ext sh V1 V2 : (forall s c, In s sh -> In c (snd s) -> V1 (fst s) c = V2 (fst s) c) ->
+  build sh V1 = build sh V2.
+Proof.
+  intro H. unfold build. apply map_ext_in. intros s Hs. f_equal. apply map_ext_in. intros c Hc.
+  f_equal. apply H; assumption.
+Qed.
+
+Lemma NoDup_key_inj {A} (key : A -> name) (l : list A) a b :
+  NoDup (map key l) -> In a l -> In b l -> key a = key b -> a = b.
+Proof.
+  induction l as [|x l IH]; intros ND Ha Hb E; [contradiction|].
+  cbn in ND. inversion ND as [|? ? Hn ND']; subst.
+  destruct Ha as [<-|Ha], Hb as [<-|Hb]; auto.
+  - exfalso. apply Hn. rewrite E. apply in_map. assumption.
+  - exfalso. apply Hn. rewrite <- E. apply in_map. assumption.
+Qed.
+
+Lemma upd_first_keyed {A B} (key : A -> name) (F : A -> B) (f : name * B -> name * B) a (l : list A) :
+  NoDup (map key l) ->
+  upd_first (is_named a) f (map (fun x => (key x, F x)) l) =
+  map (fun x => if name_eqb (key x) a then f (key x, F x) else (key x, F x)) l.
+Proof.
+  induction l as [|x l IH]; intro ND; [reflexivity|].
+  cbn in ND. inversion ND as [|? ? Hn ND']; subst.
+  cbn [map upd_first]. unfold is_named at 1. cbn [fst].
+  destruct (name_eqb (key x) a) eqn:E.
+  - f_equal. apply map_ext_in. intros y Hy.
+    rewrite name_eqb_neq; [reflexivity|]. apply name_eqb_eq in E. subst a.
+    intro E'. apply Hn. rewrite <- E'. apply in_map. assumption.
+  - f_equal. apply IH. assumption.
+Qed.
+
+Definition updV (V : name -> name -> list seg_desc) (st c : name) (p : nat) (d : seg_desc)
+  : name -> name -> list seg_desc :=
+  fun s' c' => if name_eqb s' st && name_eqb c' c then place_at (V s' c') p d else V s' c'.
+
+Lemma find_build_in sh V st sd : find (is_named st) (build sh V) = Some sd ->
+  exists s, In s sh /\ fst s = st /\ sd = (fst s, map (fun c => (c, V (fst s) c)) (snd s)).
+Proof.
+  intro H. apply find_some in H. destruct H as [Hin Hn].
+  unfold build in Hin. apply in_map_iff in Hin. destruct Hin as (s & <- & Hs).
+  exists s. split; [assumption|]. split; [|reflexivity].
+  unfold is_named in Hn. cbn [fst] in Hn. apply name_eqb_eq in Hn. assumption.
+Qed.
+
+Lemma existsb_named_map {B} (F : name -> B) c l :
+  existsb (is_named c) (map (fun c' => (c', F c')) l) = existsb (fun c' => name_eqb c' c) l.
+Proof. induction l as [|x l IH]; [reflexivity|]. cbn. rewrite IH. reflexivity. Qed.
+
+Lemma place_step_build ecn sh V r : shape_ok sh ->
+  place_step ecn (build sh V) r =
+  build sh (updV V (stored_sample_name ecn (r_sample r) (r_contig r)) (r_contig r) (r_place r) (r_desc r)).
+Proof.
+  intros [ND NDc]. unfold place_step, add_segment_placed.
+  set (st := stored_sample_name ecn (r_sample r) (r_contig r)). set (c := r_contig r).
+  destruct (find (is_named st) (build sh V)) as [sd|] eqn:Ef.
+  - destruct (find_build_in _ _ _ _ Ef) as (s0 & Hs0 & Est & ->). cbn [snd].
+    rewrite existsb_named_map.
+    destruct (existsb (fun c' => name_eqb c' c) (snd s0)) eqn:Ex.
+    + unfold build at 1. rewrite (upd_first_keyed fst _ _ st sh ND).
+      unfold build. apply map_ext_in. intros s Hs.
+      destruct (name_eqb (fst s) st) eqn:Es.
+      * cbn [fst snd]. f_equal.
+        rewrite (upd_first_keyed (fun c' : name => c') (fun c' => V (fst s) c')).
+        -- apply map_ext_in. intros c' Hc'. unfold updV. rewrite Es. cbn [andb].
+           destruct (name_eqb c' c); reflexivity.
+        -- rewrite map_id. rewrite Forall_forall in NDc. apply NDc. assumption.
+      * f_equal. apply map_ext_in. intros c' Hc'. unfold updV. rewrite Es. reflexivity.
+    + apply build_ext. intros s c' Hs Hc'. unfold updV.
+      destruct (name_eqb (fst s) st) eqn:Es; [|reflexivity]. cbn [andb].
+      apply name_eqb_eq in Es.
+      assert (s = s0) by (apply (NoDup_key_inj fst sh); congruence). subst s.
+      destruct (name_eqb c' c) eqn:Ec; [|reflexivity].
+      exfalso. assert (Hex : existsb (fun c'0 => name_eqb c'0 c) (snd s0) = true).
+      { apply existsb_exists. exists c'. auto. } congruence.
+  - apply build_ext. intros s c' Hs Hc'. unfold updV.
+    destruct (name_eqb (fst s) st) eqn:Es; [|reflexivity].
+    exfalso. pose proof (find_none _ _ Ef (fst s, map (fun c0 => (c0, V (fst s) c0)) (snd s))) as Hn.
+    unfold is_named in Hn. cbn [fst] in Hn. rewrite Es in Hn.
+    assert (true = false); [|discriminate]. apply Hn. unfold build. apply in_map_iff. exists s. auto.
+Qed.
+
+(* the registrations that concern contig (s, c), as (place, descriptor) pairs in arrival order *)
+Definition sel (ecn : name -> name) (s c : name) (rs : list registration) : list (nat * seg_desc) :=
+  map (fun r => (r_place r, r_desc r))
+      (filter (fun r => name_eqb s (stored_sample_name ecn (r_sample r) (r_contig r)) && name_eqb c (r_contig r)) rs).
+
+Lemma place_all_build ecn sh : shape_ok sh -> forall rs V,
+  place_all ecn (build sh V) rs = build sh (fun s c => place_list (V s c) (sel ecn s c rs)).
+Proof.
+  intros Hsh. induction rs as [|r rs IH]; intro V; [reflexivity|].
+  unfold place_all in *. cbn [fold_left]. rewrite place_step_build by assumption. rewrite IH.
+  apply build_ext. intros s c _ _. unfold sel, updV. cbn [filter].
+  destruct (name_eqb (fst s) (stored_sample_name ecn (r_sample r) (r_contig r)) && name_eqb c (r_contig r));
+    reflexivity.
+Qed.
+
+(* ---- push-time registration *)
+Lemma stored_name_nonempty ecn s c : s <> [] -> stored_sample_name ecn s c = s.
+Proof. destruct s; [contradiction | reflexivity]. Qed.
+
+Lemma find_app_none {A} (p : A -> bool) l1 l2 : (forall x, In x l1 -> p x = false) ->
+  find p (l1 ++ l2) = find p l2.
+Proof. induction l1 as [|x l1 IH]; intro H; [reflexivity|]. cbn. rewrite (H x (or_introl eq_refl)). apply IH. intros; apply H; right; assumption. Qed.
+Lemma existsb_none {A} (p : A -> bool) l : (forall x, In x l -> p x = false) -> existsb p l = false.
+Proof. induction l as [|x l IH]; intro H; [reflexivity|]. cbn. rewrite (H x (or_introl eq_refl)). apply IH. intros; apply H; right; assumption. Qed.
+Lemma upd_first_app_none {A} (p : A -> bool) f l1 l2 : (forall x, In x l1 -> p x = false) ->
+  upd_first p f (l1 ++ l2) = l1 ++ upd_first p f l2.
+Proof. induction l1 as [|x l1 IH]; intro H; [reflexivity|]. cbn. rewrite (H x (or_introl eq_refl)). f_equal. apply IH. intros; apply H; right; assumption. Qed.
+
+Lemma not_named (coll : collection) sn : (forall x, In x coll -> fst x <> sn) ->
+  forall x, In x coll -> is_named sn x = false.
+Proof. intros H x Hx. unfold is_named. apply name_eqb_neq. apply H. assumption. Qed.
+
+(* the first contig of a new sample *)
+Lemma reg_first ecn (coll : collection) sn cn data rest : sn <> [] -> (forall x, In x coll -> fst x <> sn) ->
+  register_all ecn coll ((sn, cn, data) :: rest) = register_all ecn (coll ++ [(sn, [(cn, [])])]) rest.
+Proof.
+  intros Hs Hc. pose proof (not_named coll sn Hc) as Hn.
+  cbn [register_all]. unfold register_sample_contig. rewrite stored_name_nonempty by assumption.
+  unfold collection, sample_desc, contig_desc in *.
+  rewrite (existsb_none _ _ Hn). rewrite (find_app_none _ _ _ Hn). cbn [find].
+  unfold is_named at 1. cbn [fst]. rewrite name_eqb_refl. cbn [snd existsb].
+  rewrite (upd_first_app_none _ _ _ _ Hn). cbn [upd_first]. unfold is_named at 1. cbn [fst snd app].
+  rewrite name_eqb_refl. reflexivity.
+Qed.
+
+(* a further contig of the sample being filled *)
+Lemma reg_next ecn (coll : collection) sn pre cn data rest : sn <> [] -> (forall x, In x coll -> fst x <> sn) ->
+  register_all ecn (coll ++ [(sn, pre)]) ((sn, cn, data) :: rest) =
+  if existsb (is_named cn) pre then Err else register_all ecn (coll ++ [(sn, pre ++ [(cn, [])])]) rest.
+Proof.
+  intros Hs Hc. pose proof (not_named coll sn Hc) as Hn.
+  cbn [register_all]. unfold register_sample_contig. rewrite stored_name_nonempty by assumption.
+  unfold collection, sample_desc, contig_desc in *.
+  assert (Ex : existsb (is_named sn) (coll ++ [(sn, pre)]) = true).
+  { rewrite existsb_app. cbn. unfold is_named at 2. cbn [fst]. rewrite name_eqb_refl. apply orb_true_r. }
+  rewrite Ex. rewrite (find_app_none _ _ _ Hn). cbn [find].
+  unfold is_named at 1. cbn [fst]. rewrite name_eqb_refl. cbn [snd].
+  destruct (existsb (is_named cn) pre); [reflexivity|].
+  rewrite (upd_first_app_none _ _ _ _ Hn). cbn [upd_first]. unfold is_named at 1. cbn [fst snd].
+  rewrite name_eqb_refl. reflexivity.
+Qed.
+
+Fixpoint sample_reg (pre : list contig_desc) (cs : list (name * list N)) : option (list contig_desc) :=
+  match cs with
+  | [] => Some pre
+  | c :: cs' => if existsb (is_named (fst c)) pre then None else sample_reg (pre ++ [(fst c, [])]) cs'
+  end.
+
+Lemma reg_cs ecn sn (coll : collection) rest : sn <> [] -> (forall x, In x coll -> fst x <> sn) ->
+  forall cs pre,
+  register_all ecn (coll ++ [(sn, pre)]) (map (fun c => (sn, fst c, snd c)) cs ++ rest) =
+  match sample_reg pre cs with Some pre' => register_all ecn (coll ++ [(sn, pre')]) rest | None => Err end.
+Proof.
+  intros Hs Hc. induction cs as [|c cs IH]; intro pre; [reflexivity|].
+  cbn [map app sample_reg]. rewrite reg_next by assumption.
+  destruct (existsb (is_named (fst c)) pre); [reflexivity | apply IH].
+Qed.
+
+Lemma existsb_named_false (pre : list contig_desc) cn :
+  existsb (is_named cn) pre = false -> ~ In cn (map fst pre).
+Proof.
+  intros H Hin. apply in_map_iff in Hin. destruct Hin as (x & E & Hx).
+  assert (existsb (is_named cn) pre = true); [|congruence].
+  apply existsb_exists. exists x. split; [assumption|]. unfold is_named. rewrite E. apply name_eqb_refl.
+Qed.
+Lemma existsb_named_true (pre : list contig_desc) cn :
+  existsb (is_named cn) pre = true -> In cn (map fst pre).
+Proof.
+  intro H. apply existsb_exists in H. destruct H as (x & Hx & E). unfold is_named in E. apply name_eqb_eq in E.
+  subst. apply in_map. assumption.
+Qed.
+
+Lemma sample_reg_some : forall cs pre pre', sample_reg pre cs = Some pre' -> NoDup (map fst pre) ->
+  pre' = pre ++ map (fun c => (fst c, [])) cs /\ NoDup (map fst pre ++ map fst cs).
+Proof.
+  induction cs as [|c cs IH]; intros pre pre' H ND; cbn [sample_reg] in H.
+  - inversion H; subst. cbn. rewrite !app_nil_r. auto.
+  - destruct (existsb (is_named (fst c)) pre) eqn:E; [discriminate|].
+    apply existsb_named_false in E.
+    assert (ND' : NoDup (map fst (pre ++ [(fst c, [])]))).
+    { rewrite map_app. cbn [map fst]. apply NoDup_rev_iff. rewrite rev_app_distr. cbn.
+      constructor; [rewrite <- in_rev; assumption | apply NoDup_rev_iff; rewrite rev_involutive; assumption]. }
+    destruct (IH _ _ H ND') as [E1 E2]. split.
+    + rewrite E1, <- app_assoc. reflexivity.
+    + rewrite map_app, <- app_assoc in E2. exact E2.
+Qed.
+Lemma sample_reg_none : forall cs pre, sample_reg pre cs = None -> ~ NoDup (map fst pre ++ map fst cs).
+Proof.
+  induction cs as [|c cs IH]; intros pre H ND; cbn [sample_reg] in H; [discriminate|].
+  destruct (existsb (is_named (fst c)) pre) eqn:E.
+  - apply existsb_named_true in E. cbn [map] in ND. apply NoDup_remove_2 in ND. apply ND.
+    apply in_or_app. left. assumption.
+  - apply (IH _ H). rewrite map_app, <- app_assoc. exact ND.
+Qed.
+
+Definition shape_of (samples : list (name * list (name * list N))) : shape :=
+  map (fun s => (fst s, map fst (snd s))) samples.
+Definition inputs_ok (samples : list (name * list (name * list N))) : Prop :=
+  NoDup (map fst samples) /\ Forall (fun s => fst s <> [] /\ snd s <> []) samples.
+Definition contig_names_ok (samples : list (name * list (name * list N))) : Prop :=
+  Forall (fun s => NoDup (map fst (snd s))) samples.
+
+Lemma pushes_of_cons s samples :
+  pushes_of (s :: samples) = map (fun c => (fst s, fst c, snd c)) (snd s) ++ pushes_of samples.
+Proof. reflexivity. Qed.
+
+Lemma reg_samples ecn : forall samples (coll : collection),
+  (forall s x, In s samples -> In x coll -> fst x <> fst s) -> inputs_ok samples ->
+  (contig_names_ok samples ->
+   register_all ecn coll (pushes_of samples) = Ok (coll ++ build (shape_of samples) (fun _ _ => []))) /\
+  (~ contig_names_ok samples -> register_all ecn coll (pushes_of samples) = Err).
+Proof.
+  induction samples as [|s samples IH]; intros coll Hd [ND Hne].
+  - split; [intros _; cbn; rewrite app_nil_r; reflexivity | intro H; exfalso; apply H; constructor].
+  - destruct s as [sn cs]. cbn [map fst] in ND. inversion ND as [|? ? Hn ND']; subst.
+    inversion Hne as [|? ? [Hs Hcs] Hne']; subst. cbn [fst snd] in Hs, Hcs.
+    destruct cs as [|c0 cs]; [contradiction|].
+    assert (Hc : forall x, In x coll -> fst x <> sn).
+    { intros x Hx. apply (Hd (sn, c0 :: cs) x); [left; reflexivity | assumption]. }
+    rewrite pushes_of_cons. cbn [fst snd map app]. rewrite reg_first by assumption.
+    rewrite reg_cs by assumption.
+    destruct (sample_reg [(fst c0, [])] cs) as [pre'|] eqn:Esr.
+    + destruct (sample_reg_some _ _ _ Esr) as [Epre NDc]. { cbn. constructor; [intros []|constructor]. }
+      assert (Hd' : forall s x, In s samples -> In x (coll ++ [(sn, pre')]) -> fst x <> fst s).
+      { intros s x Hs' Hx. apply in_app_or in Hx. destruct Hx as [Hx|[<-|[]]].
+        - apply (Hd s x); [right|]; assumption.
+        - cbn [fst]. intro E. apply Hn. rewrite E. apply in_map. assumption. }
+      destruct (IH (coll ++ [(sn, pre')]) Hd' (conj ND' Hne')) as [IH1 IH2].
+      split.
+      * intro Hok. inversion Hok; subst. rewrite IH1 by assumption.
+        rewrite <- app_assoc. cbn [shape_of build map fst snd app]. rewrite Epre.
+        do 3 f_equal. rewrite map_map. reflexivity.
+      * intro Hbad. apply IH2. intro Hok. apply Hbad. constructor; [|assumption]. exact NDc.
+    + split.
+      * intro Hok. inversion Hok; subst. exfalso. apply (sample_reg_none _ _ Esr). assumption.
+      * reflexivity.
+Qed.
+
+Lemma register_all_ok ecn samples coll : inputs_ok samples ->
+  register_all ecn [] (pushes_of samples) = Ok coll ->
+  contig_names_ok samples /\ coll = build (shape_of samples) (fun _ _ => []).
+Proof.
+  intros Hin H. destruct (reg_samples ecn samples [] (fun _ _ _ F => match F with end) Hin) as [H1 H2].
+  assert (Hok : contig_names_ok samples).
+  { unfold contig_names_ok. apply Forall_forall. intros s Hs.
+    destruct (ListDec.NoDup_dec (list_eq_dec N.eq_dec) (map fst (snd s))) as [|Hbad]; [assumption|].
+    exfalso. rewrite H2 in H; [discriminate|]. intro Hall. apply Hbad.
+    unfold contig_names_ok in Hall. rewrite Forall_forall in Hall. apply Hall. assumption. }
+  split; [assumption|]. rewrite H1 in H by assumption. inversion H. reflexivity.
+Qed.
+
+Lemma shape_of_ok samples : inputs_ok samples -> contig_names_ok samples -> shape_ok (shape_of samples).
+Proof.
+  intros [ND _] Hc. split.
+  - unfold shape_of. rewrite map_map. cbn [fst]. exact ND.
+  - unfold shape_of. apply Forall_map. cbn [snd]. exact Hc.
+Qed.
